@@ -11,15 +11,18 @@ UsesOf(n) == {<<>>} \cup {<<u>> : u \in UseSet(n)}
              \cup (IF MaxUses >= 2 THEN {<<u, v>> : u \in UseSet(n), v \in UseSet(n)} ELSE {})
 Levels == {"struct", "variant", "debug_fields", "shared_default", "shared_wrap"}
 
-Empty == [D |-> "Display", level |-> "init", fields |-> <<>>, hasAttr |-> FALSE, uses |-> <<>>]
+\* star: the literal starts with `{s:.*}` (explicit value, precision from the next positional argument) - every later
+\* implicit placeholder is shifted by one, the bounds are not
+Empty == [D |-> "Display", level |-> "init", fields |-> <<>>, hasAttr |-> FALSE, uses |-> <<>>, star |-> FALSE]
 Init == c = Empty /\ phase = 0
 \* two steps so that TLC's workers share the enumeration
 Choose1 == phase = 0 /\ phase' = 1 /\ \E d \in Traits, l \in Levels, n \in 1..2 :
              \E fs \in FieldsOf(n, l) :
                /\ (\A i \in 1..n : (fs[i].fa # "fmt" => fs[i].fref = 0) /\ (fs[i].fa = "fmt" => fs[i].fref # 0))
-               /\ c' = [D |-> d, level |-> l, fields |-> fs, hasAttr |-> FALSE, uses |-> <<>>]
-Choose2 == phase = 1 /\ phase' = 2 /\ \E h \in BOOLEAN, us \in UsesOf(Len(c.fields)) :
-               /\ c' = [c EXCEPT !.hasAttr = h, !.uses = us]
+               /\ c' = [D |-> d, level |-> l, fields |-> fs, hasAttr |-> FALSE, uses |-> <<>>, star |-> FALSE]
+Choose2 == phase = 1 /\ phase' = 2 /\ \E h \in BOOLEAN, us \in UsesOf(Len(c.fields)), st \in BOOLEAN :
+               /\ (st => h /\ c.level \in {"struct", "variant"})
+               /\ c' = [c EXCEPT !.hasAttr = h, !.uses = us, !.star = st]
                /\ WellFormed(c')
                /\ (h => us # <<>>)
                \* at most one positional-style use (the rendering gives each its own argument, in order)
